@@ -70,6 +70,39 @@ class RelLexMod:
                                 s3 = s3.setmon("owed", True)
                             out.append((OK, some(hv), s3.setmon("cur", which)))
                 return out
+        if c == "core::iter::sources::from_fn::from_fn":
+            return [(OK, ("abs", "fromfn", args[0]), st)]
+        if a0 is not None and a0[0] == "abs" and a0[1] == "fromfn" and c.endswith("::collect") and isinstance(n, dict) and n.get("ty") == "alloc::string::String":
+            # `from_fn(|| input.next_if(..)).collect::<String>()`: the closure is called until it yields None and every
+            # character it yields is appended - the same discipline as an explicit push loop
+            root = ("T", "collectbuf")
+            s0 = st.setmon("collecting", True).setmon("pushed", False).setroot(root, ("abs", "run", "empty"))
+            out, seen, work = [], set(), [s0]
+            while work:
+                s = work.pop()
+                fz = s.freeze()
+                if fz in seen:
+                    continue
+                seen.add(fz)
+                if len(seen) > 2000:
+                    self.problems.append(("lexer-run", "collect over from_fn does not converge", sp))
+                    break
+                for ctl, r, s2 in I.apply(a0[2], [], s, n):
+                    if ctl != OK:
+                        out.append((ctl, r, s2))
+                        continue
+                    r = I.deref_val(s2, r)
+                    if r[0] == "enum" and r[1] == NONE:
+                        buf = s2.store.get(root)
+                        s3 = s2.copy()
+                        s3.store.pop(root, None)
+                        out.append((OK, buf, s3))
+                    elif r[0] == "enum" and r[1] == SOME:
+                        for ctl3, _, s4 in self.intrinsic(I, "alloc::string::String::push", [("ref", (root,)), r[2][0]], s2, n) or []:
+                            work.append(s4)
+                    else:
+                        self.problems.append(("lexer-run", "from_fn closure yields an undetermined value %s" % (str(r)[:60],), sp))
+            return I.dedupe(out)
         if c == "alloc::string::String::new":
             return [(OK, ("abs", "run", "empty"), st.setmon("collecting", True).setmon("pushed", False))]
         if c == "alloc::string::String::push":
